@@ -789,7 +789,7 @@ func (p *Proc) evalShortCircuit(ec *ectx, x *ast.BinaryExpr) Val {
 		st1 := ec.st.clone()
 		st1.assume(Not(guard))
 		st1.assume(Eq(res, BoolLit(x.Op == token.LOR)))
-		m := p.merge([]*State{st2, st1})
+		m := p.mergeForce([]*State{st2, st1})
 		if len(m) != 1 {
 			p.failf(x, "cannot merge short-circuit states")
 		}
